@@ -213,3 +213,16 @@ Fixpoint first_file_as (c : cfg) (f : fs) (file : str) (es : list entry) : ffres
       | _ => first_file_as c f file rest
       end
   end.
+
+(** [tarutil.TarZipFile(tw, p, dir)] (tarutil/zip_file.go): every zip entry
+    becomes a tar entry of the same kind, permission bits and content, named
+    [path.Join(dir, name)] — or [name] itself when [dir] is empty.  (Zip
+    entries whose mode says link, device, fifo or socket make the call fail;
+    [KOther] stands for them and is left as it is.) *)
+Definition tar_zip_entry (dir : str) (e : entry) : entry :=
+  {| e_name := if is_empty dir then e_name e else path_join [dir; e_name e];
+     e_kind := e_kind e;
+     e_perm := e_perm e;
+     e_data := match e_kind e with KDir => [] | _ => e_data e end |}.
+
+Definition tar_zip (dir : str) (es : list entry) : list entry := map (tar_zip_entry dir) es.
